@@ -16,7 +16,6 @@ structure St where
   blocks  : Std.HashMap Nat BlockInfo := {}
   W       : Nat := 0
   batch   : Nat := 0
-  fix     : Bool := false
   w       : Wallet := genesisWallet ⟨fun _ => 0, fun _ => []⟩
   tip     : BlockId := []
   running : Bool := false
@@ -27,7 +26,7 @@ def St.content (s : St) : Content :=
   { time := fun b => match s.blocks.get? (b.headD 0) with | some i => i.time | none => 0
     txs := fun b => match s.blocks.get? (b.headD 0) with | some i => i.txs | none => [] }
 
-def St.cfg (s : St) : Cfg := ⟨s.W, s.content, s.fix⟩
+def St.cfg (s : St) : Cfg := ⟨s.W, s.content⟩
 
 def showHash : Hash → String
   | none => "z"
@@ -83,13 +82,13 @@ def step (s : St) (line : String) : St × String :=
   let t := words line
   match t with
   | "init" :: rest =>
-    match natOf rest "W", natOf rest "batch", natOf rest "gt", natOf rest "fix" with
-    | some W, some batch, some gt, some fix =>
-      let s0 : St := { inited := true, W := W, batch := batch, fix := fix == 1, running := true,
+    match natOf rest "W", natOf rest "batch", natOf rest "gt" with
+    | some W, some batch, some gt =>
+      let s0 : St := { inited := true, W := W, batch := batch, running := true,
                        blocks := ({} : Std.HashMap Nat BlockInfo).insert 0 ⟨[], gt, []⟩ }
       let s1 := { s0 with w := genesisWallet s0.content }
       (s1, showState s1)
-    | _, _, _, _ => (s, "bad-op")
+    | _, _, _ => (s, "bad-op")
   | op :: rest =>
     if !s.inited then (s, "bad-op") else
     match op with
